@@ -37,6 +37,7 @@ def shards(tier, seed):
     out.append({"name": "enum-3streams", "kind": "enum3", "tier": tier, "seed": seed})
     for i in range(2 if tier == "quick" else 8):
         out.append({"name": f"same-block-{i}", "kind": "sameblock", "tier": tier, "seed": seed})
+    out.append({"name": "many-concurrent-streams", "kind": "manystreams", "tier": tier, "seed": seed})
     n_rand = 6 if tier == "quick" else 192
     for i in range(n_rand):
         out.append({"name": f"random-{i}", "kind": "random", "i": i, "tier": tier, "seed": seed})
@@ -457,6 +458,38 @@ def sameblock(spec, acc):
         acc.cover("same_block_pairs", f"{a.pgn}+{b.pgn}")
 
 
+def manystreams(spec, acc):
+    """Many (PGN, source, destination) streams in flight at the same time - more than any small table would hold: a
+    large network, or a few talkers addressing many devices. Every stream sends one message; the frames of all
+    messages are interleaved round-robin (every message is open until the last round)."""
+    rng = gen.rng_for(spec["seed"], ID, spec["name"])
+    quick = spec["tier"] == "quick"
+    for n_streams in ([70, 130, 300] if quick else [65, 70, 100, 130, 200, 300, 500, 1000]):
+        pairs = set()
+        while len(pairs) < n_streams:
+            pairs.add((rng.randrange(0, 252), rng.randrange(0, 252)))
+        msgs = []
+        for sid, (src, dst) in enumerate(sorted(pairs)):
+            pgn = 126720 if sid % 3 else 130816
+            msgs.append(Msg((pgn, src, dst if pgn == 126720 else 255, sid), 0, rng.choice([13, 14, 20, 27]), seq=rng.randrange(8)))
+        # PDU2 streams must differ in the source (the destination is not part of their identity)
+        seen, keep = set(), []
+        for m in msgs:
+            key = (m.stream[0], m.stream[1], m.stream[2])
+            if key not in seen:
+                seen.add(key)
+                keep.append(m)
+        msgs = keep
+        events = []
+        for k in range(max(m.nframes for m in msgs)):
+            order = list(msgs)
+            rng.shuffle(order)
+            events += [(m, k) for m in order if k < m.nframes]
+        run_history(events, acc, f"manystreams {len(msgs)}", True)
+        acc.count("many_concurrent_stream_histories")
+        acc.cover("concurrent_streams", len(msgs))
+
+
 def run_shard(spec, acc):
     dbx = refdb.db()
     # the fallback definitions must be what HEAD selects, otherwise payloads are not observable
@@ -465,7 +498,7 @@ def run_shard(spec, acc):
         if d is None or not d.fallback:
             acc.inconclusive_because(f"HEAD does not select the fallback definition of PGN {pgn}")
             return
-    {"enum1": enum1, "enum2": enum2, "enum3": enum3, "random": random_histories, "sameblock": sameblock}[spec["kind"]](spec, acc)
+    {"enum1": enum1, "enum2": enum2, "enum3": enum3, "random": random_histories, "sameblock": sameblock, "manystreams": manystreams}[spec["kind"]](spec, acc)
 
 
 def replay(w, acc):
